@@ -329,6 +329,15 @@ Proof.
   exists q, om, oh. auto.
 Qed.
 
+(** Loading a dump serves nothing but what the dump or the cache held under that key. *)
+Theorem reload_serves_only_what_was_held fresh dump st k v :
+  lookup k (reload fresh dump st) = Some v -> lookup k dump = Some v \/ lookup k st = Some v.
+Proof.
+  unfold reload. destruct fresh; [auto|].
+  induction dump as [|[k' v'] t IH]; cbn [app lookup]; [auto|].
+  destruct (list_eqb N.eqb k k'); auto.
+Qed.
+
 (** The same for the outcome recorded at any position of any run. *)
 Theorem run_hits_only_same_question h1 q om oh h2 v :
   Forall wf_op (h1 ++ Query q om oh :: h2) ->
